@@ -76,6 +76,29 @@ claim("C11",
       TRUST + "held references are re-read as raw bytes; open finding C11-held-item-clobbered in known_findings.json",
       "TLA+ model checking (TLC) with ghost borrow state + TLC trace validation of held-item observations",
       "4/C11")
+SRV = ("The implementation-shaped Server model (accept queue, connection and stream vectors, the two "
+       "round-robin indices, swap_remove, biased select, cancel-safe polls) is checked exhaustively by TLC in a "
+       "small scope; Server::run is then polled by hand over scripted listener/sockets/service, driven by "
+       "TLC-simulated behaviours and seeded random schedules, and every execution is validated by TLC against "
+       "the property-level ServerTrace spec. ")
+claim("C08", SRV + "C08: each call reaches the service exactly once and in order, only what a connection is owed is "
+      "written on it, in order, nothing for oneway; completeness at quiescence.",
+      TRUST + "replies carry (connection, call#) so misdelivery is observable",
+      "TLA+ model checking (TLC) of Server + TLC trace validation of hand-polled Server::run executions", "4/C08")
+claim("C09", SRV + "C09: with faults injected on designated connections (EOF mid-frame/mid-burst, read error, write error "
+      "on the k-th write, undecodable calls, garbage) only those connections are ever closed, the server future "
+      "never returns and every healthy connection receives exactly what its own script is owed.",
+      TRUST + "faults are injected by the scripted mocks",
+      "TLA+ model checking (TLC) of Server with fault actions + TLC trace validation under injected faults", "4/C09")
+claim("C10", SRV + "C10: stream items in order with the service's continues flags, other connections served meanwhile, "
+      "the connection resumes after the stream and pipelined calls are answered in order; a write failure at an "
+      "item drops only that subscription.",
+      TRUST + "stream items are released by the driver at arbitrary moments",
+      "TLA+ model checking (TLC) of Server with parked streams + TLC trace validation", "4/C10")
+claim("C18", SRV + "C18: history counters FairWindow / FairBound are invariants of the model (and the start=last mutant "
+      "violates them); the order in which calls reach the real service is validated against the same counters.",
+      TRUST + "calls are injected as whole frames in the fairness scenarios (readiness = availability)",
+      "TLA+ model checking (TLC) with fairness history variables + TLC trace validation of service call order", "4/C18")
 
 
 def main():
